@@ -5,6 +5,7 @@
 -/
 import Upnp.Spec.C06
 import Upnp.Lemmas.C06Text
+import Upnp.Lemmas.C06Attr
 import Upnp.Lemmas.C06Int
 namespace Upnp.C06
 
@@ -197,23 +198,47 @@ end Upnp.C06
 
 namespace Upnp.C06
 
-/-- the observable form of an exception the model raises (`anc` = library ancestors by class name) -/
-def excInfo (anc : String → List String) (e : Exc) : ExcInfo := { cls := e.tok, mro := anc e.tok }
+/-- a character allowed inside an XML name (conservative: ASCII letters, digits, `_ - .`, and
+    everything from U+00C0 on except the few non-name code points below U+0370) -/
+def isNameChar (c : Char) : Bool :=
+  c.isAlphanum || c == '_' || c == '-' || c == '.'
+  || (0xC0 ≤ c.toNat && c.toNat != 0xD7 && c.toNat != 0xF7)
 
-/-- what is observed of a model run: the request as the requester receives it, the body as read
-    back by `readEnvelope` -/
-def modelObs (anc : String → List String) (res : List Request × Option Exc) : Obs :=
-  match res with
-  | ([r], _) => { sent := 1, err := none, method := r.method, url := r.url, headers := r.headers,
-                  tree := (readEnvelope r.body).map Envelope.tree }
-  | (_, e) => { sent := 0, err := e.map (excInfo anc) }
+def isNameStart (c : Char) : Bool := isNameChar c && !c.isDigit && c != '-' && c != '.'
 
-/-- hypotheses of the main theorem (all satisfiable; see the example in `Props/C06.lean`) -/
+/-- **domain predicate for action and argument names**: they are written as element names
+    (`<u:Name …>`, `<Name>`), where no escaping exists — a name with markup cannot be sent at all.
+    (UDA: names are XML names without hyphen; the device description is the source.) -/
+def xmlNameOk : Str → Bool
+  | [] => false
+  | c :: r => isNameStart c && r.all isNameChar
+
+theorem nameChar_facts (c : Char) (h : isNameChar c = true) : c ≠ ' ' ∧ c ≠ '>' ∧ c ≠ '/' := by
+  refine ⟨?_, ?_, ?_⟩ <;> (intro e; subst e; revert h; decide)
+
+theorem xmlNameOk_nameOk (n : Str) (h : xmlNameOk n = true) : nameOk n = true ∧ ' ' ∉ n := by
+  cases n with
+  | nil => simp [xmlNameOk] at h
+  | cons c r =>
+    simp only [xmlNameOk, Bool.and_eq_true, List.all_eq_true] at h
+    have hc : isNameChar c = true := by
+      have := h.1; simp only [isNameStart, Bool.and_eq_true] at this; exact this.1.1.1
+    have hall : ∀ x ∈ c :: r, isNameChar x = true := by
+      intro x hx
+      rcases List.mem_cons.mp hx with rfl | hx
+      · exact hc
+      · exact h.2 x hx
+    refine ⟨?_, fun hm => (nameChar_facts _ (hall _ hm)).1 rfl⟩
+    simp only [nameOk, Bool.and_eq_true, bne_iff_ne, ne_eq, Bool.not_eq_true', List.contains_eq_mem,
+      decide_eq_false_iff_not]
+    exact ⟨(nameChar_facts c hc).2.2, fun hm => (nameChar_facts _ (hall _ hm)).2.1 rfl⟩
+
+/-- hypotheses of the main theorem (all satisfiable; see the example in `Props/C06.lean`).
+    There is NO hypothesis on the service type: any string is a legal namespace name once quoted. -/
 structure Hyp (O : Oracles) (a : ActionDecl) (kw : Kwargs) : Prop where
   url : (urljoin a.deviceUrl a.controlUrl).isSome = true
-  action : ' ' ∉ a.name
-  serviceType : '"' ∉ a.serviceType
-  names : ∀ d ∈ a.inArgs, nameOk d.name = true
+  action : xmlNameOk a.name = true
+  names : ∀ d ∈ a.inArgs, xmlNameOk d.name = true
   rows : ∀ d ∈ a.inArgs, rowSound d.var.row = true
   oracle : ∀ d ∈ a.inArgs, ∀ v, kw.lookup d.name = some v → oracleOk O v
 
